@@ -15,6 +15,7 @@ def showExc : PyExc → String
   | .runtimeError => "RuntimeError"
   | .indexError => "IndexError"
   | .keyError => "KeyError"
+  | .outOfFuel => "OutOfFuel"
 def showBool (b : Bool) : String := if b then "bool 1" else "bool 0"
 def resolveStub (b r : List Char) : List Char := "[".toList ++ b ++ "|".toList ++ r ++ "]".toList
 
@@ -29,6 +30,13 @@ def step (line : String) : String :=
   | ["strip", a] => "str " ++ encStr (strip (decStr a))
   | "F" :: name :: flag :: opt :: strs =>
     match GenS.dispatch resolveStub name (strs.map decStr) (flag == "1") (if opt == "N" then none else some (decStr opt)) with
+    | none => "nofunc"
+    | some (.ok (some r)) => "str " ++ encStr r
+    | some (.ok none) => "none"
+    | some (.error e) => "err " ++ showExc e
+  | "G" :: name :: num :: strs =>       -- a function with an int parameter; `while` loops get far more fuel than any terminating run needs
+    let ss := strs.map decStr
+    match GenS.dispatch resolveStub name ss false none (num.toInt?.getD 0) (4 * (ss.foldl (fun a s => a + s.length) 0) + 50) with
     | none => "nofunc"
     | some (.ok (some r)) => "str " ++ encStr r
     | some (.ok none) => "none"
